@@ -194,7 +194,7 @@ func runGlobs(c *Ctx) {
 		}
 		return
 	}
-	n := c.Pick(1500, 20000)
+	n := c.Pick(3000, 40000)
 	for i := 0; i < n; i++ {
 		var d globsCase
 		seen := map[string]bool{}
@@ -971,7 +971,11 @@ func (r *fhRun) run(only map[int]bool) {
 			if matched != nil {
 				la, laexit = strconv.Itoa(matched.step), matched.exit
 			}
-			return fmt.Sprintf("viol kind=%s method=%s gens=%s writer=%s wmode=%s wexit=%s wtask=%s lastatt=%s laexit=%s", kind, method, b2s(gens), w, wmode, wexit, wtask, la, laexit)
+			newer := "0"
+			if matched != nil && newest > matched.time {
+				newer = "1" // some source is newer than the last attempt
+			}
+			return fmt.Sprintf("viol kind=%s method=%s gens=%s writer=%s wmode=%s wexit=%s wtask=%s lastatt=%s laexit=%s srcnewer=%s", kind, method, b2s(gens), w, wmode, wexit, wtask, la, laexit, newer)
 		}
 		// C04: skip ⇒ goodRun
 		if s.Mode == "run" && o.skipped && len(t.Sources) > 0 && !good {
@@ -982,7 +986,8 @@ func (r *fhRun) run(only map[int]bool) {
 			r.viol = append(r.viol, fhViol{"c05", k, ti, facts("force-did-not-run")})
 		}
 		if s.Mode == "run" && o.skipped {
-			if !gens {
+			if !gens && len(t.Sources) > 0 {
+				// (tasks without sources are governed by status alone: generates is not consulted)
 				r.viol = append(r.viol, fhViol{"c05", k, ti, facts("missing-generates-skipped")})
 			}
 			if len(t.Status) > 0 && !stat {
@@ -1385,7 +1390,7 @@ func runFingerHist(c *Ctx, prop string) {
 		return
 	}
 	maxLen := c.Pick(6, 10)
-	n := c.Pick(map[string]int{"c04": 230, "c05": 230, "c12": 150}[prop], map[string]int{"c04": 1500, "c05": 1500, "c12": 900}[prop])
+	n := c.Pick(map[string]int{"c04": 1500, "c05": 1500, "c12": 800}[prop], map[string]int{"c04": 12000, "c05": 12000, "c12": 6000}[prop])
 	g := &fhGen{c: c, prop: prop}
 	cases := make([]fhCase, n)
 	for i := range cases {
